@@ -112,7 +112,7 @@ impl Prop for C14 {
         for p in ["left-end", "right-end", "interior-knot", "just-above-knot", "just-below-knot", "midpoint", "random"] {
             v.push(format!("point:{}", p));
         }
-        for s in ["repeated-interior-knot", "no-interior-knots", "m>=k", "m=k-1", "outside-support", "array-form", "python-layer", "dual-abscissa", "scale:tiny-domain", "scale:huge-domain"] {
+        for s in ["repeated-interior-knot", "no-interior-knots", "m>=k", "m=k-1", "outside-support", "array-form", "python-layer", "dual-abscissa", "matrix-form", "scale:tiny-domain", "scale:huge-domain"] {
             v.push(s.to_string());
         }
         v
@@ -240,6 +240,55 @@ impl Prop for C14 {
                         ctx.violation("C14|array-form-length", json!({"k": k, "t": t, "i": i, "m": m, "returned": got.len(), "points": xs.len()}));
                         return;
                     }
+                }
+            }
+        }
+        // the matrix form PPSpline::bsplmatrix(tau, left_n, right_n): row j holds every basis function at site j
+        // (the left_n-th / right_n-th derivative in the first / last row) - for ANY sites, not only interlacing ones
+        {
+            let sp = rateslib::splines::PPSpline::<f64>::new(k, t.clone(), None);
+            let mut tau: Vec<f64> = pts.iter().map(|(x, _)| *x).collect();
+            tau.sort_by(|a, b| a.partial_cmp(b).unwrap());
+            let (ln, rn) = (rng.usize(k + 1), rng.usize(k + 1));
+            ctx.eval((tau.len() * n) as u64);
+            ctx.asserted((tau.len() * n) as u64);
+            ctx.class("matrix-form");
+            match guarded(|| sp.bsplmatrix(&tau, ln, rn)) {
+                Caught::Ok(mat) => {
+                    let same = |a: f64, b: f64| a.to_bits() == b.to_bits() || a == b;
+                    let mut bad = mat.dim() != (tau.len(), n);
+                    if !bad {
+                        'rows: for j in 0..tau.len() {
+                            let m = if j == 0 { ln } else if j + 1 == tau.len() { rn } else { 0 };
+                            for i in 0..n {
+                                let single = if m == 0 { bsplev_single_f64(&tau[j], i, &k, &t, None) } else { bspldnev_single_f64(&tau[j], i, &k, &t, m, None) };
+                                if !same(mat[[j, i]], single) {
+                                    ctx.violation(
+                                        &format!("C14|matrix-form-differs|{}", if j == 0 || j + 1 == tau.len() { "end-row" } else { "interior-row" }),
+                                        json!({"k": k, "t": t, "sites": tau, "left_n": ln, "right_n": rn, "row": j, "column": i, "matrix_entry": mat[[j, i]], "single_point_form": single}),
+                                    );
+                                    return;
+                                }
+                            }
+                            if false {
+                                break 'rows;
+                            }
+                        }
+                    } else {
+                        bad = true;
+                    }
+                    if bad {
+                        ctx.violation("C14|matrix-form-shape", json!({"k": k, "t": t, "sites": tau.len(), "returned_dim": [mat.dim().0, mat.dim().1], "expected_dim": [tau.len(), n]}));
+                        return;
+                    }
+                }
+                Caught::Panic { loc, msg } => {
+                    if is_harness_location(&loc) {
+                        ctx.harness_error(format!("{} {}", loc, msg));
+                    } else {
+                        ctx.violation(&format!("C14|panic|matrix-form|{}", short_loc(&loc)), json!({"k": k, "t": t, "sites": tau, "left_n": ln, "right_n": rn, "message": msg}));
+                    }
+                    return;
                 }
             }
         }
